@@ -97,6 +97,9 @@ pub open spec fn refs_ok<T: RealNumber, D: Distance<Vec<T>, T>>(g: G<T, D>, v: S
 }
 
 impl<T: RealNumber, D: Distance<Vec<T>, T>> DBSCAN<T, D> {
+// loops are verified in the context of the code before them: an immutable local introduced in front of a loop (say `let eps = parameters.eps;`)
+// is then known inside the loop without being named in an invariant (a name that need not exist in /repo)
+#[verifier::loop_isolation(false)]
 //@extract src/cluster/dbscan.rs :: impl<T: RealNumber + Sum, D: Distance<Vec<T>, T>> DBSCAN<T, D> :: fit :: ret=res
 //@spec
         requires
@@ -138,7 +141,6 @@ impl<T: RealNumber, D: Distance<Vec<T>, T>> DBSCAN<T, D> {
         let ghost g = problem(x, parameters);
         let ghost mut seeds: Seq<int> = Seq::<int>::empty();   // seeds[c]: the point cluster c was grown from
         proof {
-            assert(g.n() == x.nrows_spec());
             // the state before the first visit satisfies both invariants; once all points are visited they give the postconditions
             g.lemma_init_q();
             g.lemma_conn_init_q();
@@ -237,11 +239,7 @@ impl<T: RealNumber, D: Distance<Vec<T>, T>> DBSCAN<T, D> {
                             }
                         }
 //@loopend 3
-                        proof {
-                            if y_pre[top] >= 0 { assert(y@ == y_pre); assert(neighbors@.len() < nbs_pre.len()); }
-                            else if y_pre[top] == -1 { assert(y@ == y_pre.update(top, k)); assert(unlabelled(y@, n as int) < unlabelled(y_pre, n as int)); }
-                            else { assert(unlabelled(y@, n as int) < unlabelled(y_pre, n as int)); }
-                        }
+                        proof { if y@.len() == n { lemma_unl_bound(y@, n as int); } }   // the termination measure is not negative
 //@loop 4
                                     invariant
                                         g.eps == parameters.eps, g.ms == parameters.min_samples as int, g.ms >= 1,
